@@ -62,14 +62,17 @@ def summary(out):
 
 
 def run(ctx):
-    ctx.mc("RecvBufferMC", ctx.pick("RecvBufferMC.cfg", "RecvBufferMCThorough.cfg"), workers=8)
+    # quick: one TLC run is both the exhaustive check (RecvBufferGen.cfg lists the invariants) and the behaviour source
+    if not ctx.quick():
+        ctx.mc("RecvBufferMC", "RecvBufferMC.cfg", workers=8)
+        ctx.mc("RecvBufferMC", "RecvBufferMCThorough.cfg", workers=8)
     ctx.neg("RecvBufferMC", "RecvBufferNeg.cfg", expect="I_Contig", workers=2)
     binary = ctx.go_build("internal/transport", name="c05", only=r"zz_verif_c05_")
 
     gen = ctx.pick("RecvBufferGen.cfg", "RecvBufferGenThorough.cfg")
     c = cfg_consts(ctx, gen)
-    g = ctx.dump_graph("RecvBufferMC", gen)
-    raw = ctx.edge_cover(g, step_of, limit=ctx.pick(2500, 60000))
+    g = ctx.dump_graph("RecvBufferMC", gen, workers=8)
+    raw = ctx.edge_cover(g, step_of, limit=ctx.pick(1500, 8000))
     behs = []
     for b in raw:
         init = {"a": "init", "compaction": bool(b[0]["c"]), "thr": c["Thr"], "client": ctx.rng.random() < 0.5}
@@ -91,11 +94,9 @@ def run(ctx):
     t1 = os.path.join(ctx.run, "trace-replay.ndjson")
     out = ctx.driver(binary, "TestVerifC05Replay", {"VERIF_BEHAVIOURS": bpath, "VERIF_OUT": t1})
     ctx.cov["compactions_replay"] = summary(out).get("compactions")
-    if not summary(out).get("compactions"):
-        raise Inconclusive("no compaction happened in the replayed behaviours")
+    no_compaction = [] if summary(out).get("compactions") else ["replayed behaviours"]
     if summary(out).get("recvMsgSize") != c["O"]:
         raise Inconclusive("recvMsgSize of this platform is %s, the generation config assumes O = %d" % (summary(out).get("recvMsgSize"), c["O"]))
-    judge(ctx, ctx.validate("RecvBufferTrace", "RecvBufferTrace.cfg", t1), t1, "replay of TLC behaviours")
 
     if twoerr:
         bpath2 = os.path.join(ctx.run, "beh-twoerr.ndjson")
@@ -112,29 +113,34 @@ def run(ctx):
 
     # long random histories, small threshold (compaction every few dozen frames)
     t2 = os.path.join(ctx.run, "trace-random-small.ndjson")
-    n, frames = ctx.pick(3, 40), ctx.pick(2000, 5000)
+    n, frames = ctx.pick(3, 15), ctx.pick(2000, 5000)
     out = ctx.driver(binary, "TestVerifC05Random", {"VERIF_OUT": t2, "VERIF_N": n, "VERIF_FRAMES": frames, "VERIF_THR": 1500})
     ctx.cov["compactions_random_small_thr"] = summary(out).get("compactions")
     ctx.count({"random_small_thr": n, "frames": frames, "seed": ctx.seed}, n=n)
-    judge(ctx, ctx.validate("RecvBufferTrace", "RecvBufferTrace.cfg", t2, heap="8g"), t2, "random histories, threshold 1500, seed %d" % ctx.seed)
 
     # long random histories with the REAL threshold (10^4 frames each), Level A only
     t3 = os.path.join(ctx.run, "trace-random-real.ndjson")
-    n = ctx.pick(2, 24)
+    n = ctx.pick(2, 8)
     out = ctx.driver(binary, "TestVerifC05Random", {"VERIF_OUT": t3, "VERIF_N": n, "VERIF_FRAMES": 10000, "VERIF_THR": 0})
     ctx.cov["compactions_random_real_thr"] = summary(out).get("compactions")
     ctx.log("compactions observed: replay %s, random small threshold %s, random real threshold %s" % (
         ctx.cov["compactions_replay"], ctx.cov["compactions_random_small_thr"], ctx.cov["compactions_random_real_thr"]))
     if not summary(out).get("compactions"):
-        raise Inconclusive("no compaction happened with the real threshold")
+        no_compaction.append("random histories with the real threshold")
     ctx.count({"random_real_thr": n, "frames": 10000, "seed": ctx.seed}, n=n)
-    judge(ctx, ctx.validate("RecvBufferTrace", "RecvBufferTrace.cfg", t3, heap="8g"), t3, "random histories, real threshold, seed %d" % ctx.seed)
     # free-running producer vs reader (put vs load race), judged by the same monitor
     t4 = os.path.join(ctx.run, "trace-stress.ndjson")
-    n = ctx.pick(4, 40)
-    ctx.driver(binary, "TestVerifC05Stress", {"VERIF_OUT": t4, "VERIF_N": n, "VERIF_FRAMES": ctx.pick(5000, 20000)})
+    n = ctx.pick(4, 12)
+    ctx.driver(binary, "TestVerifC05Stress", {"VERIF_OUT": t4, "VERIF_N": n, "VERIF_FRAMES": ctx.pick(5000, 10000)})
     ctx.count({"stress_runs": n, "seed": ctx.seed}, n=n)
-    judge(ctx, ctx.validate("RecvBufferTrace", "RecvBufferTrace.cfg", t4, heap="8g"), t4, "free-running producer/reader stress, seed %d" % ctx.seed)
+    t_all = os.path.join(ctx.run, "trace-all.ndjson")
+    with open(t_all, "w") as out:
+        for p in (t1, t2, t3, t4):
+            out.write(open(p).read())
+    judge(ctx, ctx.validate("RecvBufferTrace", "RecvBufferTrace.cfg", t_all, heap="8g"), t_all,
+          "replay of TLC behaviours + random histories (threshold 1500 and real) + producer/reader stress, seed %d" % ctx.seed)
+    if no_compaction and not ctx.violations:
+        raise Inconclusive("no compaction was observed in: " + ", ".join(no_compaction))
     ctx.cov["rule"] = ("behaviours = edge cover of the TLC state graph of RecvBufferMC (both compaction settings), each executed on the "
                        "real recvBuffer/recvBufferReader (Read or ReadMessageHeader, server or client flavour chosen by the seed) and "
                        "drained at the end; non-trivial = >= 2 steps; distinct by step sequence; plus seeded random histories of "
